@@ -846,6 +846,8 @@ def main():
         for i in range((400 if thorough else 60) // (run.shard[1] if thorough else 1) + 1):
             run.case(("random", run.shard[0], i))
             random_history(run, rng, 200)
+            # more tasks pending together (a heap of three levels and more): removals from the middle matter
+            random_history(run, rng, 200, ntasks=rng.choice([6, 9, 12, 16]))
     # (C)
     if run.want("C"):
         intervals = [100, Fraction(1000, 3), 700, 1, 10, 250, 1000, 60000, Fraction(1, 3), 33]
